@@ -1,4 +1,4 @@
-//go:build !(verif && verifhook)
+//go:build !verif
 
 package chain
 
